@@ -867,7 +867,8 @@ Theorem C03_or_insert_with_key_full_panics :
 Proof. exact (@or_insert_with_key_full_panics). Qed.
 Print Assumptions C03_or_insert_with_key_full_panics.
 
-(* Entry::or_default() is or_insert_with(Default::default).  [d] is the
+(* The model has NO definition named or_default (see ROUND 2 below for the term the
+   interpreter runs).  Entry::or_default() is or_insert_with(Default::default).  [d] is the
    default-maker (a total function: Default::default() here does not panic);
    mk_of d := fun s => (Some (fst (d s)), snd (d s))  (Proofs/MoreBulk.v).
    On a FULL map with an absent key it panics; the default WAS built (one
@@ -1401,3 +1402,139 @@ Example C03_example_or_insert_with_closure_panics :
   | _ => False
   end.
 Proof. vm_compute. split; reflexivity. Qed.
+
+(* ========================================================================== *)
+(* AUDIT CLOSURE, ROUND 2 (appended).  Proofs/MoreBulk.v, sections 4-5.
+
+   (1) "collect/From ... panics": stated POSITIVELY for the real entry points
+       FromIterator / From<[_; N]> (from_iter) and their Set twins (s_from_iter):
+       C03_from_iter_overflow_panics, C03_s_from_iter_overflow_panics - when the
+       list machine overflows (more distinct keys than N: C03_bulk_overflow) the
+       run IS a panic, for both values of `debug`, with the exact log of
+       C03_from_iter_overflow / C03_s_from_iter_overflow.  Nothing is said about
+       self w': it is the partly built LOCAL container after its destructor ran
+       (all its entries are in the log as destroyed); the caller never sees it.
+   (2) or_default.  The model has NO definition named or_default: the crate's
+       Entry::or_default() is `or_insert_with(Default::default)`, and
+       C03_or_default_full_panics above is a statement about
+           or_insert_with E debug e (mk_of d)
+       for an arbitrary total default-maker d.  What the interpreter runs for
+       entry chain 3 (Model/Exec.v, entry_chain: `or_insert_with Em debug e
+       (mk_default sc)`) is an instance: C03_mk_default_is_mk_of shows
+       mk_default sc = mk_of (d_default sc) pointwise unless the script makes
+       that very closure call panic (sc_fk sc = 4), and
+       C03_or_default_exec_full_panics is the panic theorem for exactly the term
+       the interpreter runs.  d_default sc s (Proofs/MoreBulk.v, restated in
+       C03_d_default_def) ticks the closure counter and builds the fresh object
+       {vid := next_id; vdat := 0}.
+   (3) Examples for the closure hypothesis of C03_or_insert_with_key_lawful /
+       _full_panics / _tied: C03_example_mk_val_key_total and the run
+       C03_example_or_insert_with_key_full.
+   ========================================================================== *)
+
+Theorem C03_from_iter_overflow_panics :
+  forall (K V Q T : Type) (E : env K V Q T) (debug : bool) (ck : K -> N) (cq : Q -> N),
+  Lawful E ck cq ->
+  forall (nx : T -> ans * T) (items : list (K * V)) (w : world K V T),
+  (forall s : T, fst (nx s) <> Boom) ->
+  WF (self w) ->
+  len (self w) = 0 ->
+  l_extend ck (cap (self w)) [] items = None ->
+  exists (w' : world K V T) (pre : list (K * V)) (x : K * V) (post res : list (K * V)),
+    from_iter E debug nx items w = Panic w' /\
+    items = pre ++ x :: post /\
+    l_extend ck (cap (self w)) [] pre = Some res /\
+    find_idx ck (ck (fst x)) res = None /\
+    length res = cap (self w) /\
+    log w' = log w ++ ext_evs E ck [] pre ++ [EvCall 1] ++
+                      arg_drops E x ++ flat_map (pair_drops E) post ++
+                      flat_map (pair_drops E) res.
+Proof. exact (@from_iter_overflow_panics). Qed.
+Print Assumptions C03_from_iter_overflow_panics.
+
+Theorem C03_s_from_iter_overflow_panics :
+  forall (K Q T : Type) (E : env K unit Q T) (debug : bool) (ck : K -> N) (cq : Q -> N),
+  Lawful E ck cq ->
+  forall (nx : T -> ans * T) (items : list K) (w : world K unit T),
+  (forall s : T, fst (nx s) <> Boom) ->
+  WF (self w) ->
+  len (self w) = 0 ->
+  l_extend ck (cap (self w)) [] (unit_items items) = None ->
+  exists (w' : world K unit T) (pre : list K) (x : K) (post : list K) (res : list (K * unit)),
+    s_from_iter E debug nx items w = Panic w' /\
+    items = pre ++ x :: post /\
+    l_extend ck (cap (self w)) [] (unit_items pre) = Some res /\
+    find_idx ck (ck x) res = None /\
+    length res = cap (self w) /\
+    log w' = log w ++ s_ext_evs E ck [] pre ++ [EvCall 1] ++
+                      arg_drops E (x, tt) ++ flat_map (pair_drops E) (unit_items post) ++
+                      flat_map (pair_drops E) res.
+Proof. exact (@s_from_iter_overflow_panics). Qed.
+Print Assumptions C03_s_from_iter_overflow_panics.
+
+(* the hypotheses hold of: capacity 2, the four items of C03_items (classes 6,7,8,5) *)
+Example C03_example_from_iter_overflow_hyps :
+  WF (self (w_of (new_map 2))) /\ len (self (w_of (new_map 2))) = 0 /\
+  l_extend kcls (cap (self (w_of (new_map 2)))) [] C03_items = None /\
+  (forall s : cstate, fst (nx_none s) <> Boom).
+Proof.
+  split; [apply WF_new|]. split; [reflexivity|]. split; [vm_compute; reflexivity|].
+  intros s. cbn. discriminate.
+Qed.
+
+(* -------------------------------------------------------------------------- *)
+(* (2) or_default as the interpreter runs it *)
+Theorem C03_d_default_def :
+  forall (sc : script) (s : cstate),
+  d_default sc s =
+  let s' := snd (call_tick sc s) in
+  ({| vid := next_id s'; vdat := 0 |},
+   {| n_eq := n_eq s'; n_clone := n_clone s'; n_call := n_call s'; next_id := next_id s' + 1 |}).
+Proof. reflexivity. Qed.
+Print Assumptions C03_d_default_def.
+
+Theorem C03_mk_default_is_mk_of :
+  forall sc : script, sc_fk sc <> 4%N -> forall s : cstate, mk_default sc s = mk_of (d_default sc) s.
+Proof. exact mk_default_is_mk_of. Qed.
+Print Assumptions C03_mk_default_is_mk_of.
+
+(* E is any lawful environment over the interpreter's element types (env_map sc
+   for an honest script: C03_example_lawful); sc_fk sc <> 4: the script does not
+   make a closure call panic *)
+Theorem C03_or_default_exec_full_panics :
+  forall (E : env key vobj query cstate) (debug : bool) (ck : key -> N) (cq : query -> N),
+  Lawful E ck cq ->
+  forall (sc : script) (k : key) (w : world key vobj cstate),
+  sc_fk sc <> 4%N ->
+  WF (self w) ->
+  find_idx ck (ck k) (Spec.elems (self w)) = None ->
+  len (self w) = cap (self w) ->
+  exists w1 w' : world key vobj cstate,
+    entry_of E k w = Ok (Vacant k) w1 /\ self w1 = self w /\ log w1 = log w /\
+    (e <- entry_of E k ;; or_insert_with E debug e (mk_default sc)) w = Panic w' /\
+    self w' = self w /\
+    logged w w' ([EvCall 2] ++ ev_drops (idV E (fst (d_default sc (cb w1))) ++ idK E k)).
+Proof. exact or_default_exec_full_panics. Qed.
+Print Assumptions C03_or_default_exec_full_panics.
+
+Example C03_example_or_default_exec_hyps : sc_fk C03_sc0 <> 4%N.
+Proof. cbn. discriminate. Qed.
+(* the run: C03_example_or_default_full above (default object id 100000 built,
+   then destroyed before the key 9) *)
+
+(* -------------------------------------------------------------------------- *)
+(* (3) the closure hypothesis of the or_insert_with_key theorems,
+       forall s, exists v s', f k s = (Some v, s'),
+   holds of the closure the interpreter uses for chain 2 under an honest script *)
+Example C03_example_mk_val_key_total :
+  forall s : cstate, exists (v : vobj) (s' : cstate),
+    (fun _ : key => mk_val C03_sc0 (v_ 10 10)) (k_ 9 9) s = (Some v, s').
+Proof. intros s. eexists. eexists. reflexivity. Qed.
+
+Example C03_example_or_insert_with_key_full :
+  match (e <- entry_of (env_map C03_sc0) (k_ 9 9) ;;
+         or_insert_with_key (env_map C03_sc0) true e (fun _ : key => mk_val C03_sc0 (v_ 10 10))) (w_of m3) with
+  | Panic w' => self w' = m3 /\ log w' = [EvCall 2; EvDrop 10; EvDrop 9] /\ n_call (cb w') = 1%N
+  | _ => False
+  end.
+Proof. vm_compute. repeat split; reflexivity. Qed.
